@@ -148,6 +148,59 @@ Theorem C09_jsrun_plain_refuted : exists c t, c_lm c = JSRUN /\ c_erf c = false 
 Proof. exact jsrun_plain_refuted. Qed.
 Print Assumptions C09_jsrun_plain_refuted.
 
+
+(* ---- launcher selection (ResourceManager.find_launcher over the launch
+        order).  Node identifiers stand for node names: equal iff the names
+        are the same strings. ---- *)
+
+(* FORK accepts a task only if its single slot's node name is 'localhost' (0)
+   or EQUAL to the agent's node name *)
+Theorem C09_fork_accepts_only_own_node : forall c t, c_lm c = FORK -> can_launch c t = inr true ->
+  exists s, t_slots t = [s] /\ (s_node s = 0 \/ s_node s = c_local c).
+Proof. exact fork_accepts. Qed.
+Print Assumptions C09_fork_accepts_only_own_node.
+
+Theorem C09_fork_selected_own_node : forall cs t j c,
+  find_launcher cs t = inr (Some (j, c)) -> c_lm c = FORK ->
+  exists s, t_slots t = [s] /\ (s_node s = 0 \/ s_node s = c_local c).
+Proof. exact fork_selected_own_node. Qed.
+Print Assumptions C09_fork_selected_own_node.
+
+(* the selected launcher is the j-th of the order, it accepted the task *)
+Theorem C09_find_launcher_sound : forall cs t j c, find_launcher cs t = inr (Some (j, c)) ->
+  can_launch c t = inr true /\ nth_error cs j = Some c.
+Proof. exact find_launcher_sound. Qed.
+Print Assumptions C09_find_launcher_sound.
+
+(* whatever launcher find_launcher selects (among the methods and flavours
+   with proved commands: FORK, SSH, RSH, MPIRUN*, SRUN, PRTE, MPIEXEC* with
+   rank file or non-PALS), its command starts exactly the task's ranks on
+   exactly the nodes named in the placement *)
+Theorem C09_selected_launcher_enacts : forall cs t j c st,
+  find_launcher cs t = inr (Some (j, c)) -> valid t -> proven c ->
+  let o := (inr true, snd (get_launch_cmds c st t)) : obs1 in
+  ok_count c t o = true /\ ok_nodes c t o = true /\ ok_pins c t o = true.
+Proof. exact selected_enacts. Qed.
+Print Assumptions C09_selected_launcher_enacts.
+
+Theorem C09_selection_rows_hold : forall cs t, valid t -> (forall c, In c cs -> proven c) ->
+  sel_clause ok_count cs t (select_obs cs t) = true /\
+  sel_clause ok_nodes cs t (select_obs cs t) = true /\
+  sel_clause ok_pins cs t (select_obs cs t) = true.
+Proof. exact select_obs_ok. Qed.
+Print Assumptions C09_selection_rows_hold.
+
+(* non-vacuity of the selection theorems: agent on node 10, launch order
+   FORK, SSH; a task placed on node 1 is passed on to SSH (index 1), a task on
+   node 10 is taken by FORK (index 0) *)
+Example C09_selection_nonvacuous :
+  let cs := [cfg0 FORK OMPI; cfg0 SSH OMPI] in
+  let cs := map (fun c => Build_cfg (c_lm c) false false false false false OMPI false false false false 20
+                            false false 1 false 64 4 10 0 [] false true) cs in
+  fst (select_obs cs (Build_task [sl 1 0] [] 1 1 0 false true 0 false false false)) = inr (Some 1%nat) /\
+  fst (select_obs cs (Build_task [sl 10 0] [] 1 1 0 false true 0 false false false)) = inr (Some 0%nat).
+Proof. split; vm_compute; reflexivity. Qed.
+
 (* ---- the oracle's multiset / set comparisons mean what they say ---- *)
 Theorem C09_oracle_multiset : forall a b : list Z,
   (mseteqb a b = true <-> forall x, count_occ Z.eq_dec a x = count_occ Z.eq_dec b x) /\
